@@ -49,6 +49,8 @@ var targets = []target{
 	{"block/aggregation.go", "", "getRemainingSleep"},
 	{"block/pending_base.go", "pendingBase", "numPending"},
 	{"block/pending_base.go", "pendingBase", "isEmpty"},
+	{"types/da.go", "", "SubmitWithHelpers"},
+	{"types/da.go", "", "RetrieveWithHelpers"},
 }
 
 var fset = token.NewFileSet()
@@ -64,6 +66,19 @@ func text(n ast.Node) string {
 }
 
 func q(s string) string { return "\"" + strings.ReplaceAll(s, "\"", "\"\"") + "\"" }
+
+// printable: Coq string literals here are ASCII; anything else becomes '?' (no decision modelled depends on it)
+func printable(s string) string {
+	var b strings.Builder
+	for _, r := range s {
+		if r >= 32 && r < 127 {
+			b.WriteRune(r)
+		} else {
+			b.WriteByte('?')
+		}
+	}
+	return b.String()
+}
 
 func list(xs []string) string { return "[" + strings.Join(xs, "; ") + "]" }
 
@@ -145,7 +160,9 @@ func (t *tr) expr(e ast.Expr) string {
 				return fmt.Sprintf("(EInt %d)", v)
 			}
 		case token.STRING:
-			return "(EStr " + q("s") + ")" // the text of a string literal never matters to a decision modelled here
+			if v, err := strconv.Unquote(x.Value); err == nil {
+				return "(EStr " + q(printable(v)) + ")"
+			}
 		}
 		return "(EUnknown " + q("literal "+x.Value) + ")"
 	case *ast.ParenExpr:
@@ -165,6 +182,8 @@ func (t *tr) expr(e ast.Expr) string {
 			return "(EBin " + o + " " + t.expr(x.X) + " " + t.expr(x.Y) + ")"
 		}
 		return "(EUnknown " + q("binary "+text(x)) + ")"
+	case *ast.IndexExpr:
+		return "(EIndex " + t.expr(x.X) + " " + t.expr(x.Index) + ")"
 	case *ast.SliceExpr:
 		if x.Low == nil && x.High == nil && x.Max == nil {
 			return "(EId " + t.expr(x.X) + ")"
@@ -202,7 +221,7 @@ func (t *tr) expr(e ast.Expr) string {
 				if ownPkgs[p] {
 					name = f.Sel.Name
 				}
-				if name == "fmt.Errorf" || name == "errors.New" {
+				if name == "fmt.Errorf" || name == "errors.New" || name == "fmt.Sprintf" {
 					return "(ECall " + q(name) + " [])"
 				}
 				return "(ECall " + q(name) + " " + t.exprs(x.Args) + ")"
@@ -249,13 +268,19 @@ func (t *tr) stmt(s ast.Stmt) string {
 		gd, ok := x.Decl.(*ast.GenDecl)
 		if ok && gd.Tok == token.VAR {
 			plain := true
+			var zs []string
 			for _, sp := range gd.Specs {
-				if vs, ok := sp.(*ast.ValueSpec); !ok || len(vs.Values) != 0 {
+				vs, ok := sp.(*ast.ValueSpec)
+				if !ok || len(vs.Values) != 0 || vs.Type == nil {
 					plain = false
+					break
+				}
+				for _, n := range vs.Names {
+					zs = append(zs, "("+q(n.Name)+", "+q(text(vs.Type))+")")
 				}
 			}
 			if plain {
-				return "(SSkip " + q("var") + ")"
+				return "(SVarZero " + list(zs) + ")"
 			}
 		}
 		return "(SUnknown " + q("declaration "+text(x)) + ")"
@@ -290,6 +315,50 @@ func (t *tr) stmt(s ast.Stmt) string {
 			els = "[SUnknown " + q("else "+text(e)) + "]"
 		}
 		return "(SIf " + init + " " + t.expr(x.Cond) + " " + t.block(x.Body) + " " + els + ")"
+	case *ast.SwitchStmt:
+		// switch [init;] [tag] { case a, b: ...; default: ... }  ->  if/else-if chain (no fallthrough)
+		var clauses []*ast.CaseClause
+		var def *ast.CaseClause
+		for _, c := range x.Body.List {
+			cc := c.(*ast.CaseClause)
+			for _, st := range cc.Body {
+				if b, ok := st.(*ast.BranchStmt); ok && b.Tok == token.FALLTHROUGH {
+					return "(SUnknown " + q("switch with fallthrough") + ")"
+				}
+			}
+			if cc.List == nil {
+				def = cc
+			} else {
+				clauses = append(clauses, cc)
+			}
+		}
+		chain := "[]"
+		if def != nil {
+			chain = t.block(&ast.BlockStmt{List: def.Body})
+		}
+		for i := len(clauses) - 1; i >= 0; i-- {
+			cc := clauses[i]
+			var conds []string
+			for _, e := range cc.List {
+				if x.Tag != nil {
+					conds = append(conds, "(EBin OEq "+t.expr(x.Tag)+" "+t.expr(e)+")")
+				} else {
+					conds = append(conds, t.expr(e))
+				}
+			}
+			cond := conds[0]
+			for _, c := range conds[1:] {
+				cond = "(EBin OOr " + cond + " " + c + ")"
+			}
+			chain = "[(SIf [] " + cond + " " + t.block(&ast.BlockStmt{List: cc.Body}) + " " + chain + ")]"
+		}
+		init := ""
+		if x.Init != nil {
+			init = t.stmt(x.Init) + "; "
+		}
+		return "(SIf [] (EBool true) [" + init + strings.TrimSuffix(strings.TrimPrefix(chain, "["), "]") + "] [])"
+	case *ast.ForStmt, *ast.RangeStmt:
+		return "(SUnknown " + q("loop") + ")"
 	case *ast.ReturnStmt:
 		return "(SReturn " + t.exprs(x.Results) + ")"
 	case *ast.BlockStmt:
